@@ -12,9 +12,10 @@ package ext
 //@ func bodyStream.Read(rs, p) n, err
 //@   props C14
 //@   nosafety
+//@   replay-import errors
 //@   replay-import github.com/cloudwego/hertz/pkg/common/bytebufferpool
-//@   replay-import github.com/cloudwego/hertz/pkg/common/test/mock
-//@   replay-go body := strings.Repeat("a", 10000); conn := mock.NewConn(body + strings.Repeat("N", 300)); rs := AcquireBodyStream(&bytebufferpool.ByteBuffer{}, conn, nil, 10000); total := 0; buf := make([]byte, 4096); for { n, err := rs.Read(buf); total += n; if err != nil { break } }; if total > 10000 { fmt.Println("VCGO-VIOLATED a 10000-byte streamed body delivered", total, "bytes (the excess belongs to the next request)") }
+//@   replay-decl type vcgoWire struct{ b []byte; pos int }; func (w *vcgoWire) Peek(n int) ([]byte, error) { if w.pos+n > len(w.b) { return w.b[w.pos:], errors.New("EOF") }; return w.b[w.pos : w.pos+n], nil }; func (w *vcgoWire) Skip(n int) error { if w.pos+n > len(w.b) { return errors.New("EOF") }; w.pos += n; return nil }; func (w *vcgoWire) Release() error { return nil }; func (w *vcgoWire) Len() int { return len(w.b) - w.pos }; func (w *vcgoWire) ReadByte() (byte, error) { if w.pos >= len(w.b) { return 0, errors.New("EOF") }; w.pos++; return w.b[w.pos-1], nil }; func (w *vcgoWire) ReadBinary(n int) ([]byte, error) { p, err := w.Peek(n); if err != nil { return nil, err }; w.pos += n; return append([]byte(nil), p...), nil }; func (w *vcgoWire) Read(p []byte) (int, error) { n := copy(p, w.b[w.pos:]); w.pos += n; if n == 0 { return 0, errors.New("EOF") }; return n, nil }
+//@   replay-go w := &vcgoWire{b: []byte(strings.Repeat("a", 10000) + strings.Repeat("N", 300))}; rs := AcquireBodyStream(&bytebufferpool.ByteBuffer{}, w, nil, 10000); total := 0; buf := make([]byte, 4096); for i := 0; i < 8; i++ { n, err := rs.Read(buf); total += n; if err != nil { break } }; if total > 10000 || w.pos > 10000 { fmt.Println("VCGO-VIOLATED a 10000-byte streamed body delivered", total, "bytes and consumed", w.pos, "wire bytes (the excess belongs to the next request)") }
 //@   requires rs.contentLength >= 0 ==> bsFixed(rs)
 //@   requires rs.reader != nil
 //@   modifies *, rs.reader.pos, rs.reader.avail, rs.reader.failed
